@@ -387,6 +387,10 @@ matrix * dense(spmatrix *self)
   matrix *A;
   int_t j, k;
 
+  if (SP_NROWS(self) > INT_MAX || SP_NCOLS(self) > INT_MAX) {
+    PyErr_SetString(PyExc_OverflowError, "number of elements exceeds INT_MAX");
+    return NULL;
+  }
   if (!(A = Matrix_New(SP_NROWS(self),SP_NCOLS(self),SP_ID(self))))
     return NULL;
 
